@@ -36,6 +36,9 @@ type Prog struct {
 	AllFns  map[*ssa.Function]bool // every function incl. anonymous, instances
 	SrcFns  []*ssa.Function        // repo source functions (non-instance), sorted
 	rx      *regexTable
+	aeStages map[*ssa.Function]*stageInfo
+	aeShared *aeShared
+	aeResults map[string]*aeEcoResult
 }
 
 // Eco is one ecosystem package, discovered by shape.
